@@ -364,6 +364,19 @@ def g_fad(rng, cfg, n):
 
 # ------------------------------------------------------------------ functional twins
 
+def _bleu_ctor(n_gram=4, weights=None, **kw):
+    """BLEUScore with the n-gram weights given as a plain list (configurations stay JSON-serialisable for replays)"""
+    return M.BLEUScore(n_gram=n_gram, weights=None if weights is None else torch.tensor(weights), **kw)
+
+
+def _f_bleu(cfg, b: "Batch"):
+    kw = {"n_gram": cfg["n_gram"]} if "n_gram" in cfg else {}
+    if cfg.get("weights") is not None:
+        kw["weights"] = torch.tensor(cfg["weights"])
+    kw.update(b.kwargs)
+    return F.bleu_score(*b.args, **kw)
+
+
 def _f(fn, *names, **fixed):
     """functional(cfg, batch): positional tensors as given, selected cfg keys as kwargs."""
     def call(cfg, b: Batch):
@@ -485,7 +498,7 @@ def _specs() -> list[Spec]:
         Spec("WordErrorRate", M.WordErrorRate, [{}], g_text, cat={}, functional=_f(F.word_error_rate), family="text", count_states=("errors", "total")),
         Spec("WordInformationLost", M.WordInformationLost, [{}], g_text, cat={}, functional=_f(F.word_information_lost), family="text", count_states=("correct_total", "target_total", "preds_total")),
         Spec("WordInformationPreserved", M.WordInformationPreserved, [{}], g_text, cat={}, functional=_f(F.word_information_preserved), family="text", count_states=("correct_total", "input_total", "target_total")),
-        Spec("BLEUScore", M.BLEUScore, [{"n_gram": 2}, {"n_gram": 1}, {"n_gram": 3}], g_bleu, cat={}, functional=_f(F.bleu_score, "n_gram"), family="text", tol=1e-4, count_states=("input_len", "target_len", "matches_by_order", "possible_matches_by_order")),
+        Spec("BLEUScore", _bleu_ctor, [{"n_gram": 2}, {"n_gram": 1}, {"n_gram": 3}, {"n_gram": 2, "weights": [1.0, 1.0]}, {"n_gram": 3, "weights": [0.5, 0.25, 0.125]}], g_bleu, cat={}, functional=_f_bleu, family="text", tol=1e-4, count_states=("input_len", "target_len", "matches_by_order", "possible_matches_by_order")),
         Spec("Perplexity", M.Perplexity, [{}, {"ignore_index": 1}, {"ignore_index": -100}], g_perplexity, cat=c01, functional=_f(F.perplexity, "ignore_index"), family="text", tol=1e-4, count_states=("num_total",)),
         Spec("BinaryNormalizedEntropy", M.BinaryNormalizedEntropy, [{}, {"num_tasks": 2}, {"from_logits": True}], g_ne, cat=tasks, functional=_f(F.binary_normalized_entropy, "num_tasks", "from_logits"), family="ne", tol=1e-4, count_states=("num_examples", "num_positive")),
         Spec("PeakSignalNoiseRatio", M.PeakSignalNoiseRatio, [{}, {"data_range": 2.0}], g_psnr, cat=c01, functional=_f(F.peak_signal_noise_ratio, "data_range"), family="image", tol=1e-4, count_states=("num_observations",)),
@@ -616,6 +629,24 @@ def f64_variant(b: Batch, salt: int = 1) -> Batch:
             if not done[0]:
                 done[0] = True
                 a = a * f
+        return a
+    return Batch(tuple(conv(a) for a in b.args), {k: conv(v) for k, v in b.kwargs.items()})
+
+
+def fine_variant(b: Batch, salt: int = 1) -> Batch:
+    """the same batch in float64 with the FIRST floating tensor (scores / data) split BELOW float32 resolution: element i is
+    multiplied by (1 − j_i·2^-40), j_i ∈ {0..4} — equal float32 values become distinct float64 values (and stay inside [0, x]),
+    so a path that squeezes the data through float32 changes the tie structure (rank metrics) or the value."""
+    done = [False]
+
+    def conv(a):
+        if isinstance(a, torch.Tensor) and a.is_floating_point():
+            a = a.to(torch.float64)
+            if not done[0]:
+                done[0] = True
+                idx = torch.arange(a.numel(), dtype=torch.float64).reshape(a.shape)
+                j = torch.remainder(idx * 3 + salt, 5)
+                a = a * (1.0 - j * 2.0 ** -40)
         return a
     return Batch(tuple(conv(a) for a in b.args), {k: conv(v) for k, v in b.kwargs.items()})
 
